@@ -15,13 +15,13 @@ Open Scope Z_scope.
 (* adjustment of multiple results (manual 3.4.12) *)
 Theorem C01_paren_one_value : forall c vs k,
   ctl c = CRet vs -> stk c = KFirst :: k ->
-  step c = inl (mkCfg (CRet [first vs]) k (sto c) (trace c) (cline c)).
+  step c = inl (mkCfg (CRet [first vs]) k (sto c) (trace c) (cline c) (cot c)).
 Proof. exact paren_one_value. Qed.
 Print Assumptions C01_paren_one_value.
 
 Theorem C01_list_middle_one_value : forall c vs acc e rest ρ lk k,
   ctl c = CRet vs -> stk c = KList acc (e :: rest) ρ lk :: k ->
-  step c = inl (mkCfg (CExp e ρ) (KList (acc ++ [first vs]) rest ρ lk :: k) (sto c) (trace c) (cline c)).
+  step c = inl (mkCfg (CExp e ρ) (KList (acc ++ [first vs]) rest ρ lk :: k) (sto c) (trace c) (cline c) (cot c)).
 Proof. exact list_middle_one_value. Qed.
 Print Assumptions C01_list_middle_one_value.
 
@@ -33,37 +33,37 @@ Print Assumptions C01_list_last_all_values.
 
 (* multiple assignment evaluates every right-hand side before assigning (3.3.3):
    `a, b = b, a` swaps, for all stores, stacks and cells *)
-Theorem C01_assign_rhs_first : forall ca cb rest va' k σ tr ln ln0,
+Theorem C01_assign_rhs_first : forall ca cb rest va' k σ tr ln ln0 cs,
   let ρ := mkEnv ((nb, cb) :: (na, ca) :: rest) va' in
-  steps 8 (mkCfg (CStat ln (SAssign [EVar na; EVar nb] [EVar nb; EVar na]) ρ) k σ tr ln0) =
-  inl (mkCfg CDone k (cell_set (cell_set σ ca (cell_get σ cb)) cb (cell_get σ ca)) tr ln0).
+  steps 8 (mkCfg (CStat ln (SAssign [EVar na; EVar nb] [EVar nb; EVar na]) ρ) k σ tr ln0 cs) =
+  inl (mkCfg CDone k (cell_set (cell_set σ ca (cell_get σ cb)) cb (cell_get σ ca)) tr ln0 cs).
 Proof. exact assign_rhs_first_swap. Qed.
 Print Assumptions C01_assign_rhs_first.
 
 (* fresh variables per loop iteration and per execution of `local` (3.5) *)
-Theorem C01_fresh_cell_per_iteration_fornum : forall x cur lim st b ρ ln k σ tr ln0,
+Theorem C01_fresh_cell_per_iteration_fornum : forall x cur lim st b ρ ln k σ tr ln0 cs,
   ((if 0 <? st then cur + st <=? lim else lim <=? cur + st) && in64b (cur + st))%bool = true ->
-  step (mkCfg CDone (KForNumI x cur lim st b ρ ln :: k) σ tr ln0) =
+  step (mkCfg CDone (KForNumI x cur lim st b ρ ln :: k) σ tr ln0 cs) =
   inl (mkCfg (CBlock b (mkEnv ((x, ncell σ) :: vars ρ) (va ρ)) [])
              (KForNumI x (cur + st) lim st b ρ ln :: k)
-             (snd (cell_alloc σ (VInt (cur + st)))) tr ln0)
+             (snd (cell_alloc σ (VInt (cur + st)))) tr ln0 cs)
   /\ ncell (snd (cell_alloc σ (VInt (cur + st)))) = Pos.succ (ncell σ).
 Proof. exact fresh_cell_per_iteration_fornum. Qed.
 Print Assumptions C01_fresh_cell_per_iteration_fornum.
 
-Theorem C01_fresh_cells_per_iteration_forin : forall xs f s b ρ ln k σ tr ln0 v vs,
+Theorem C01_fresh_cells_per_iteration_forin : forall xs f s b ρ ln k σ tr ln0 cs v vs,
   v <> VNil ->
-  step (mkCfg (CRet (v :: vs)) (KForInC xs f s b ρ ln :: k) σ tr ln0) =
+  step (mkCfg (CRet (v :: vs)) (KForInC xs f s b ρ ln :: k) σ tr ln0 cs) =
   inl (let '(ρv, s', _) := bind_names xs (v :: vs) (vars ρ) σ in
-       mkCfg (CBlock b (mkEnv ρv (va ρ)) []) (KForIn xs f s v b ρ ln :: k) s' tr ln0).
+       mkCfg (CBlock b (mkEnv ρv (va ρ)) []) (KForIn xs f s v b ρ ln :: k) s' tr ln0 cs).
 Proof. exact fresh_cells_per_iteration_forin. Qed.
 Print Assumptions C01_fresh_cells_per_iteration_forin.
 
-Theorem C01_local_binds_fresh : forall xs rest seen acc ρ k σ tr ln vs,
+Theorem C01_local_binds_fresh : forall xs rest seen acc ρ k σ tr ln cs vs,
   has_close xs = false ->
-  step (mkCfg (CRet vs) (KList acc [] ρ (LLocal xs rest seen) :: k) σ tr ln) =
+  step (mkCfg (CRet vs) (KList acc [] ρ (LLocal xs rest seen) :: k) σ tr ln cs) =
   inl (let '(ρv, s, _) := bind_names (map fst xs) (acc ++ vs) (vars ρ) σ in
-       mkCfg (CBlock rest (mkEnv ρv (va ρ)) seen) k s tr ln).
+       mkCfg (CBlock rest (mkEnv ρv (va ρ)) seen) k s tr ln cs).
 Proof. exact local_binds_fresh. Qed.
 Print Assumptions C01_local_binds_fresh.
 
@@ -81,8 +81,8 @@ Print Assumptions C01_identities_never_reused.
 
 (* ... hence the variable bound by one loop iteration differs from every variable
    bound later in the run (closures of different iterations do not share it) *)
-Theorem C01_later_cells_differ : forall n σ v c ct k tr ln,
-  steps n (mkCfg ct k (snd (cell_alloc σ v)) tr ln) = inl c ->
+Theorem C01_later_cells_differ : forall n σ v c ct k tr ln cs,
+  steps n (mkCfg ct k (snd (cell_alloc σ v)) tr ln cs) = inl c ->
   (ncell σ < ncell (sto c))%positive.
 Proof. exact later_cells_differ. Qed.
 Print Assumptions C01_later_cells_differ.
